@@ -428,7 +428,9 @@ def verdict(case, obs, schemas):
             return ("Gateway.listen yielded a message whose field values are not the ones the transport line spells",
                     {"line": line, "want": list(want), "yielded": repr(ev[1])})
     for topic, payload, _qos, idx in obs["publishes"]:
-        seen = MQTTTransport._parse_mqtt_to_message(topic, payload) + "\n"
+        # the peer's reading of a publish, by the MQTT convention itself (prefix/node/child/command/ack/type : payload) -
+        # not through a private helper of the library, which a refactoring may move (DESIGN 13, false alarm 15)
+        seen = ";".join(topic.split("/")[-5:] + [payload]) + "\n"
         if seen != obs["writes"][idx]["text"]:
             return ("what a peer on the broker sees for a publish (topic levels + payload) is not the line that was written",
                     {"topic": topic, "payload": payload, "write": obs["writes"][idx]["text"]})
